@@ -40,6 +40,12 @@ for p in patches:
     finally:
         subprocess.run(["git", "-C", "/repo", "checkout", "--", "."], check=True)
     res[name] = fired
+    if "/seeded/" in p:
+        dp = os.path.join(VERIF, "seeded", "DETECTION.json")
+        det = json.load(open(dp)) if os.path.exists(dp) else {}
+        if len(ids) >= 19:
+            det[os.path.basename(os.path.dirname(p))] = [i for i, rc, _ in fired if rc == 1]
+            json.dump(det, open(dp, "w"), indent=1, sort_keys=True)
     print("%-28s %s" % (name, "DETECTED by " + ",".join("%s(rc%d)" % (i, rc) for i, rc, _ in fired) if fired else "MISSED"))
     for i, rc, lines in fired:
         for l in lines: print("        %s %s" % (i, l.strip()[:260]))
